@@ -649,6 +649,40 @@ func init() {
 					})
 				}
 			}
+			// the number of files is no input either: one configuration over 1 .. 19 files whose order matters (the same
+			// parameter set by every file, calls, tags and decorators appended by every file)
+			for n := 1; n <= 19; n++ {
+				n := n
+				w.Case(fmt.Sprintf("many-files/%d", n), func(c *C) {
+					whole := &Cfg{Meta: &Meta{Pkg: P("gen"), Imports: []KV{{"pk", "fx/pk"}}}, Services: []Service{{Name: "s", Constructor: P("pk.New")}}}
+					var files []File
+					for k := 0; k < n; k++ {
+						part := &Cfg{Params: []Param{{"last", k}, {fmt.Sprintf("own%02d", k), k}}, Services: []Service{{Name: "s", Calls: []Call{{Method: fmt.Sprintf("Step%d", k), Args: []any{k}}}, Tags: []Tag{{Name: fmt.Sprintf("t%02d", k), Priority: P(k)}}, Fields: []KV{{"F", k}}}},
+							Decorators: []Decorator{{Tag: "t00", Decorator: "pk.Dec1", Args: []any{k}}}}
+						if k == 0 {
+							part.Meta = whole.Meta
+							part.Services[0].Constructor = P("pk.New")
+						}
+						files = append(files, File{fmt.Sprintf("part-%02d.yaml", k), part.YAML()})
+						whole.Params = append(whole.Params, Param{fmt.Sprintf("own%02d", k), k})
+						ws := &whole.Services[0]
+						ws.Calls = append(ws.Calls, part.Services[0].Calls...)
+						ws.Tags = append(ws.Tags, part.Services[0].Tags...)
+						ws.Fields = []KV{{"F", k}}
+						whole.Decorators = append(whole.Decorators, part.Decorators...)
+					}
+					whole.Params = append(whole.Params, Param{"last", n - 1})
+					want := w.Build([]File{{"c.yaml", whole.YAML()}})
+					c.Distinct("all", c.ID)
+					c.Distinct("nontrivial", c.ID)
+					for gi, got := range []BuildResult{w.Build(files), w.BuildPatterns(files, []string{"part-*.yaml"})} {
+						if !want.OK() || !got.OK() || want.Output != got.Output {
+							c.Violation("many-files-differ", fmt.Sprintf("%d files (named %s): accepted %v / %v; %s\n%s", n, []string{"one by one", "by one pattern"}[gi], want.OK(), got.OK(), FirstDiff(want.Output, got.Output), strings.Join(ErrorLines(got.Out), "\n")), FilesMap(files), nil)
+							return
+						}
+					}
+				})
+			}
 			// size is not an input of the merge: one file of 1.5 MiB (and of exactly 1 MiB + a few bytes) against the same
 			// parameters in several files
 			for si, total := range []int{1<<20 + 64, 3 << 19, 1 << 16} {
